@@ -206,6 +206,13 @@ func (in *Interp) binop(op token.Token, xt types.Type, x, y Value, yt types.Type
 func (in *Interp) eqMixed(x, y Value) *Term {
 	// comparisons against untyped nil arrive as Ptr{} for any reference kind
 	isNilPtr := func(v Value) bool { p, ok := v.(Ptr); return ok && p.IsNil() }
+	// an opaque handle (logger, metric, ...) is a live object: never nil
+	if _, ok := x.(Opaque); ok && isNilPtr(y) {
+		return in.ts.False
+	}
+	if _, ok := y.(Opaque); ok && isNilPtr(x) {
+		return in.ts.False
+	}
 	switch a := x.(type) {
 	case Slice:
 		if isNilPtr(y) {
